@@ -101,11 +101,17 @@ func ExtractProperties(c pdf.Cursor, obj pdf.Object, _ bool) (*Properties, error
 			// says "present nothing", and must not be filled in.
 			// Shallow-copy the slices so that appending to one configuration
 			// does not affect another.
-			if config.Order == nil {
-				config.Order = slices.Clone(p.D.Order)
-			}
-			if config.RBGroups == nil {
-				config.RBGroups = slices.Clone(p.D.RBGroups)
+			if config.Order == nil || config.RBGroups == nil {
+				// the configuration is shared through the extractor's
+				// cache; fill in a copy
+				clone := *config
+				config = &clone
+				if config.Order == nil {
+					config.Order = slices.Clone(p.D.Order)
+				}
+				if config.RBGroups == nil {
+					config.RBGroups = slices.Clone(p.D.RBGroups)
+				}
 			}
 			p.Configs = append(p.Configs, config)
 		}
